@@ -836,7 +836,11 @@ func ruleC08KindGroups(c *Ctx) {
 				}
 				for _, p := range d.Preds {
 					ifi := p.Instrs[len(p.Instrs)-1].(*ssa.If)
-					atoms = append(atoms, guardAtom{Cond: ifi.Cond, Pol: p.Succs[0] == d, At: ifi})
+					succ := 0
+					if p.Succs[0] != d {
+						succ = 1
+					}
+					atoms = append(atoms, guardAtom{Cond: ifi.Cond, Pol: p.Succs[0] == d, At: ifi, Succ: succ})
 				}
 			}
 			for _, g := range atoms {
@@ -852,6 +856,26 @@ func ruleC08KindGroups(c *Ctx) {
 					if cc.Call.IsInvoke() && cc.Call.Method.Name() == "Key" {
 						keyKind = true
 					}
+				}
+				// a test whose other outcome is an error return refuses the instance, it does not pass over the keywords
+				// (the branch is looked up from the condition: an atom obtained by expanding a boolean variable carries the
+				// position of the test of the variable)
+				refuses := false
+				if refs := g.Cond.Referrers(); refs != nil {
+					for _, r := range *refs {
+						ifi, ok := r.(*ssa.If)
+						if !ok || ifi.Parent() != call.Parent() {
+							continue
+						}
+						for _, sc := range ifi.Block().Succs {
+							if sc != call.Block() && !sc.Dominates(call.Block()) && blockReturnsErrorDeepLocal(sc) {
+								refuses = true
+							}
+						}
+					}
+				}
+				if refuses {
+					continue
 				}
 				if onType && !keyKind {
 					byType = c.pos(g.At)
